@@ -114,12 +114,14 @@ def run(cx):
         errs = [i for i, bl in enumerate(b.blocks) if not bl.get("cleanup") for s in bl["s"] if s["k"] == "assign" and s["lhs"] == 0 and s["rv"]["k"] == "agg" and s["rv"].get("variant") == "Err"]
         # (only the Err returns that can happen once the connection exists: a failed `connecting.await` written as an explicit
         #  `Err(e) => return Err(e)` has no connection to release)
+        # (... or leave through `?`: `Self::check_admission(..)?` - the residual is returned by a from_residual call into _0)
+        errs += [c.bb for c in b.calls() if not b.is_cleanup(c.bb) and name_matches(c.fn, "FromResidual::from_residual") and c.dest == 0]
         ldefs = [d[1] for d in b.defs().get(L, []) if d[0] != "partial"]
         live = set()
         for d_ in ldefs:
             live |= b.reachable_from(d_, succ=b.succ_noawait) | b.reachable_from(d_)
         errs = [e for e in errs if e in live]
-        ob.floor(errs, 2, "reject sites")
+        ob.floor(errs, 1, "reject sites")
         drops = [i for i, bl in enumerate(b.blocks) if not bl.get("cleanup") and bl["t"]["k"] == "drop" and place_local(bl["t"]["pl"]) == L and not place_proj(bl["t"]["pl"])]
         rets = b.return_blocks()
         for e in errs:
@@ -249,3 +251,15 @@ def run(cx):
         cc = cx.body("anemo::config::EndpointConfigBuilder::client_config")
         t_ = cc.calls_to("quinn_proto::config::ClientConfig::transport_config")
         ob.require(len(t_) == 1 and is_param(Origins(cc).of_operand(t_[0].args[1]), "transport_config"), "client/transport-set", "client_config does not install the transport config", cc.path)
+
+    with cx.ob("C09.5", "R-PATHSEQ", "a connection this side replaces or rejects in the tie-break is closed by this side (the map's copy going away closes nothing while handlers / Peer handles hold clones), so the other side observes the loss - C04.2a re-evaluated") as ob:
+        from . import c04
+        sub = cx.__class__("C09", prog, cx.tier, cx.config, cx.tree, repo=cx.repo)
+        c04.run(sub)
+        w = [x for x in sub.obs if x.oid == "C04.2a"]
+        ob.count(sum(x.evals for x in w))
+        bad = [v for x in w for v in x.violations]
+        ob.require(len(w) == 1 and not bad, "tie-break/loser-closed-explicitly",
+                   "ActivePeersInner::add does not close the connection it drops from the listing on some path: " + "; ".join(v.msg for v in bad)[:300],
+                   "anemo::network::connection_manager::ActivePeersInner::add")
+
